@@ -124,6 +124,16 @@ func (f *Frame) builtin(b *ssa.Builtin, cc *ssa.CallCommon, args []Val, pc strin
 		if f.root().con != nil && f.root().con.MayPanic {
 			unsup("may_panic contract on a function that can recover from panics")
 		}
+		if f.parent == nil && f.con != nil && f.con.Rethrows {
+			// verifying a panic handler on its own: recover() yields an arbitrary value; every normal return must
+			// come with that value being nil (checkReturn). recover() in a callee of the handler yields nil (Go semantics).
+			if vc.recVal == "" {
+				vc.recVal = vc.freshConst("recovered", "Iface")
+				vc.recCalled = "false"
+			}
+			vc.recCalled = or(vc.recCalled, pc)
+			return Val{T: vc.recVal, Typ: types.NewInterfaceType(nil, nil)}
+		}
 		// effective only when called directly by a deferred function while its parent unwinds a panic
 		if f.parent != nil && f.parent.unwinding != nil {
 			u := f.parent.unwinding
@@ -371,8 +381,26 @@ func (f *Frame) inline(callee *ssa.Function, con *Contract, args, bindings []Val
 	sub.analyseLoops()
 	order := topoOrder(callee)
 	in := map[*ssa.BasicBlock][]edge{callee.Blocks[0]: {{nil, pc, st}}}
-	sub.run(order, in, nil, nil)
-	sub.unwindPanics()
+	// a callee that leaves the supported subset is replaced by the weakest contract (arbitrary effects, may panic):
+	// sound, and it can only make proofs of the caller fail
+	untranslatable := ""
+	func() {
+		defer func() {
+			if r := recover(); r != nil {
+				thinRoot := f.root().con != nil && f.root().con.MayPanic
+				if u, ok := r.(unsupported); ok && !strings.HasPrefix(u.why, "spec:") && (thinRoot || !strings.Contains(u.why, "has no invariant")) {
+					untranslatable = u.why
+					return
+				}
+				panic(r)
+			}
+		}()
+		sub.run(order, in, nil, nil)
+		sub.unwindPanics()
+	}()
+	if untranslatable != "" {
+		return f.havocCall(callee, args, pc, st, ins, "outside the supported subset: "+untranslatable)
+	}
 	// merge normal exits
 	var conds []string
 	var states []*State
@@ -519,7 +547,7 @@ func (f *Frame) callContract(callee *ssa.Function, con *Contract, args []Val, pc
 			}
 			f.exits = append(f.exits, Exit{Panic: true, Cond: and(pc, pcond), St: st.clone(), PanicVal: Val{T: pv, Typ: types.NewInterfaceType(nil, nil)}, Pos: posOf(ins, f), Desc: "panic propagated from " + name})
 			npc = vc.define("pc nopanic", "Bool", and(pc, not(pcond)))
-		} else if !con.NoPanic {
+		} else if !con.NoPanic && !con.Rethrows {
 			mp := vc.freshConst("maypanic "+name, "Bool")
 			pv := vc.freshConst("panicval", "Iface")
 			for _, c := range con.PanicsWith {
